@@ -374,3 +374,11 @@ def run(chk, repo):
     from rules.shared import kwname
     chk.clauses.append('C18.kw (shared R-THREAD) parameters handed on as keyword arguments keep their name: no `a=b` between two parameters of one function')
     kwname(chk, repo, 'C18.kw', ['aa.PeptidePoolSplitter', 'aa.PeptidePoolSummarizer', 'aa.VariantPeptideLabel', 'aa.VariantPeptideIdentifier', 'cli.split_fasta', 'cli.merge_fasta', 'cli.encode_fasta', 'cli.summarize_fasta'], floor=0)
+    from rules.shared import options_live
+    chk.clauses.append('C18.k (shared R-OPTION) every option splitFasta itself defines is read by its code: none silently falls back to a library default')
+    options_live(chk, repo, 'C18.k', 'cli.split_fasta:add_subparser_split_fasta', 'cli.split_fasta:split_fasta', ('cli.split_fasta', 'cli.common'), floor=8)
+    from rules.shared import no_substring_on_headers
+    chk.clauses.append('C18.l (R-KIND) header entries are never compared by a substring test on the joined header string: merging keeps every entry (union of header entries)')
+    no_substring_on_headers(chk, repo, 'C18.l', ['aa.VariantPeptidePool', 'aa.PeptidePoolSplitter', 'aa.PeptidePoolSummarizer', 'cli.merge_fasta', 'cli.split_fasta', 'cli.encode_fasta'], floor=1)
+
+
